@@ -41,7 +41,7 @@ def m_res_unwrap_or_else(ex, callee, args):
     if _is_ok(ex, v): return ex.field_of(v, 'Ok', 0, 'T')
     return ex.call_closure(args[1], [ex.field_of(v, 'Err', 0, 'E')])
 def m_expect(ex, callee, args):
-    v = args[0]; isopt = 'Option' in callee
+    v = args[0]; isopt = bool(re.match(r'^(std::option::)?Option::<', callee))
     if ex.decide(ex.discr_of(v).e == (1 if isopt else 0)): return ex.field_of(v, 'Some' if isopt else 'Ok', 0, 'T')
     raise Panic('expect failed @ ' + ex.stack[-1][-60:])
 def opt_parts(ex, v):
@@ -100,7 +100,7 @@ def m_ok_or(ex, callee, args):
     return err(e)
 def m_try_branch(ex, callee, args):
     v = args[0]; d = ex.discr_of(v)
-    if 'Option' in callee.split(' as ')[0]:
+    if re.match(r'^<(std::option::)?Option<', callee):
         if ex.decide(d.e == 1): return Agg('ControlFlow', 0, [ex.field_of(v, 'Some', 0, 'T')])
         return Agg('ControlFlow', 1, [NONE()])
     if ex.decide(d.e == 0): return Agg('ControlFlow', 0, [ex.field_of(v, 'Ok', 0, 'T')])
